@@ -100,6 +100,38 @@ def k_c15(ctx):
                 kt = load_known_text("C15", "kf_decimal_overflow")
                 if kt and "overflow" in x.get("error", "").lower(): ctx.known(kt); continue
             ctx.violation("library entry point panics: %s" % x.get("error", "")[:160], {"input_hex": hexb(d), "input_text": d.decode("utf-8", "replace")[:600], "code": x}, found_input=True)
+    # (b2) hostile broker exports: well-formed JSON whose fields sit at the ends of what the converter's types hold
+    HD = ["01/03/-262143", "01/01/-262143", "12/31/262142", "12/25/262142", "01/01/0001", "12/31/9999", "02/29/2023", "02/29/2024", "13/01/2024", "00/10/2024",
+          "01/05/2024 as of 12/31/2023", "01/03/-262143 as of 01/01/-262143", "1/2/24", "", "2024-01-05", "01/01/0000", "06/15/2024"]
+    HQ = ["10", "0", "-5", "79228162514264337593543950335", "0.0000000000000000000000000001", "1e5", "", "--", "$1,234.56", "-$0.01", "1,000", "NaN", "7922816251426433759354395033.5"]
+    HA = ["Stock Plan Activity", "Buy", "Sell", "Cancel Sell", "Stock Split", "Qualified Dividend", "NRA Tax Adj", "NRA Withholding", "Cash Dividend", "Wire Sent", "Unknown Thing", ""]
+    HDV = ["01/03/-262143", "01/01/-262143", "01/08/-262143", "12/31/262142", "12/25/262142", "01/01/0001", "01/05/0001", "12/31/9999", "02/29/2024", "06/15/2024", "06/15/2024", "01/05/2024 as of 12/31/2023"]
+    HQV = ["10", "1", "$1,234.56", "0.5", "1,000", "$12.34", "79228162514264337593543950335", "0.0000000000000000000000000001"]
+    def hd(): return rng.choice(HDV) if rng.random() < 0.8 else rng.choice(HD)
+    def hq(): return rng.choice(HQV) if rng.random() < 0.8 else rng.choice(HQ)
+    sc = {}
+    for i in range(ctx.n(600, 20000)):
+        rows = []
+        for j in range(rng.randint(1, 4)):
+            rows.append({"Date": hd(), "Action": "Stock Plan Activity" if rng.random() < 0.35 else rng.choice(HA), "Symbol": rng.choice(["XYZ", "xyz", "", "A B", "BRK.B"]), "Description": "d",
+                         "Quantity": hq(), "Price": hq(), "Fees & Comm": rng.choice(["", "$0.50", hq()]), "Amount": hq()})
+        aw = None
+        if rng.random() < 0.7:
+            aw = {"Transactions": [{"Date": hd(), "Action": rng.choice(["Deposit", "Lapse", "Sale"]), "Symbol": rng.choice(["XYZ", "xyz", "ABC"]),
+                                    "TransactionDetails": [{"Details": {rng.choice(["FairMarketValuePrice", "VestFairMarketValue", "Other"]): hq(), "VestDate": hd()}}] if rng.random() < 0.8 else []}
+                                   for _ in range(rng.randint(0, 3))]}
+        c = {"id": "s%d" % i, "op": "schwab", "transactions_json": json.dumps({"BrokerageTransactions": rows})}
+        if aw is not None: c["awards_json"] = json.dumps(aw)
+        sc["s%d" % i] = c
+    sr = run.run_harness(list(sc.values()))
+    for cid, c in sc.items():
+        ctx.evaluations += 1; x = sr[cid]
+        ctx.count("hostile_export_outcome", "ok" if x.get("ok") else (x.get("kind") or x.get("stage")))
+        if x.get("stage") == "panic":
+            if "overflow" in x.get("error", "").lower() and "Decimal" in x.get("error", "") or "Multiplication overflowed" in x.get("error", "") or "Addition overflowed" in x.get("error", ""):
+                kt = load_known_text("C15", "kf_decimal_overflow")
+                if kt: ctx.known(kt); continue
+            ctx.violation("the Schwab converter panics: %s" % x.get("error", "")[:160], {"transactions_json": c["transactions_json"], "awards_json": c.get("awards_json"), "code": x}, found_input=True)
     # (c) the CLI as a process
     root = os.path.join(build.CACHE, "run", "c15-%d" % os.getpid()); shutil.rmtree(root, ignore_errors=True); os.makedirs(root)
     try:
@@ -168,6 +200,8 @@ def k_c15(ctx):
 # ---------------- C16 ----------------
 def big_ledger(rng, nsec, nyears):
     ticks = ["T%02d" % i for i in rng.sample(range(60), nsec)] + (["abc", "ABD"] if rng.random() < 0.5 else [])
+    if rng.random() < 0.6:      # tickers that are prefixes of one another, of different lengths, digits against letters
+        ticks = ticks[:max(2, nsec // 2)] + rng.sample(["A", "AA", "AAL", "AALB", "BT", "BTA", "GOOG", "GOOGL", "T1", "T10", "T100", "Z", "Z9", "9Z"], rng.randint(3, 8))
     ls = []
     y0 = 2016
     for t in ticks: ls.append(Line(datetime.date(y0, 1, rng.randint(1, 28)), t, "BUY", "1000", rng.choice(gen.PRICE), "GBP", None))
